@@ -330,7 +330,73 @@ def _restored_after_parse(ctx: Ctx) -> Set[str]:
                     for attr, key in pairs[n.iter.id]:
                         if attr.lstrip("_") == key:
                             out.add(attr)
+        if not pairs:
+            out |= _restored_straight_line(ctx, m, mkw)
     return out
+
+
+def _restored_straight_line(ctx: Ctx, m: Func, mkw: str) -> Set[str]:
+    """The same reading for a restorer written over a table of field NAMES (`for name in FIELDS: data = kwargs.get(name);
+    field_o = getattr(self, "_" + name); ...`): the loop is unrolled, getattr folded, and the statements are walked in
+    order with the locals' last bindings: `X.uuid = v` / `X.note = v` counts for field f when X is `self._f` and v comes
+    from `kwargs.get("f")`."""
+    from .normalise import normalised
+
+    try:
+        g = normalised(ctx, m, "unroll,getattr")
+    except Exception:  # noqa: BLE001
+        return set()
+    got: Dict[str, Set[str]] = {}
+
+    def resolve(e: ast.AST, env: Dict[str, ast.AST], depth: int = 0) -> ast.AST:
+        while isinstance(e, ast.Name) and e.id in env and depth < 6:
+            e = env[e.id]
+            depth += 1
+        return e
+
+    def key_of(e: ast.AST, env: Dict[str, ast.AST]) -> Optional[str]:
+        # ... .get("uuid") / [...]["note"] of something that resolves to kwargs.get("<field>")
+        seen = 0
+        todo = [e]
+        while todo and seen < 60:
+            seen += 1
+            cur = todo.pop()
+            for z in ast.walk(cur):
+                if isinstance(z, ast.Call) and src(z.func) == f"{mkw}.get" and z.args and isinstance(z.args[0], ast.Constant):
+                    return str(z.args[0].value)
+                if isinstance(z, ast.Name) and z.id in env and env[z.id] is not cur:
+                    todo.append(env[z.id])
+        return None
+
+    def walk(stmts, env: Dict[str, ast.AST], guards: List[ast.AST]) -> None:
+        for st in stmts:
+            if isinstance(st, (ast.Assign, ast.AnnAssign)) and getattr(st, "value", None) is not None:
+                tg = st.targets[0] if isinstance(st, ast.Assign) else st.target
+                if isinstance(tg, ast.Name):
+                    env[tg.id] = st.value if not isinstance(st.value, ast.Name) else resolve(st.value, env)
+                elif isinstance(tg, ast.Attribute) and tg.attr.lstrip("_") in ("uuid", "note"):
+                    obj = resolve(tg.value, env)
+                    if isinstance(obj, ast.Attribute) and src(obj.value) == "self":
+                        k = key_of(st.value, env)
+                        if k is not None and obj.attr.lstrip("_") == k:
+                            what = tg.attr.lstrip("_")
+                            other_key = "uuid" if what == "note" else "note"
+                            consts = {y.value for gd in guards for y in ast.walk(resolve(gd, env)) if isinstance(y, ast.Constant) and isinstance(y.value, str)}
+                            for gd in guards:
+                                for z in ast.walk(gd):
+                                    if isinstance(z, ast.Name) and z.id in env:
+                                        consts |= {y.value for y in ast.walk(env[z.id]) if isinstance(y, ast.Constant) and isinstance(y.value, str)}
+                            if other_key not in consts:
+                                got.setdefault(obj.attr, set()).add(what)
+            elif isinstance(st, ast.If):
+                walk(st.body, env, guards + [st.test])
+                walk(st.orelse, env, guards)
+            elif isinstance(st, (ast.For, ast.While, ast.With, ast.Try)):
+                for fld in ("body", "orelse", "finalbody"):
+                    walk(getattr(st, fld, []) or [], env, guards)
+
+    walk(g.node.body, {}, [])
+    return {a for a, w in got.items() if {"uuid", "note"} <= w}
 
 
 def r16_7(ctx: Ctx, rep: Report) -> None:
@@ -708,6 +774,19 @@ def block_identity_key_is_unique(ctx: Ctx, rep: Report, rid: str = "R16.25") -> 
         rep.instance()
         k = env.get(key.id, key) if isinstance(key, ast.Name) else key
         by_name = any(isinstance(z, ast.Attribute) and z.attr.lstrip("_") == "name" for z in ast.walk(k)) or any(isinstance(z, ast.Call) and isinstance(z.func, ast.Attribute) and "remark" in z.func.attr for z in ast.walk(k))
+        # ... and that something is taken from THIS block: the key mentions the block variable, or a local computed from it
+        blockvars = {src(z.value) for z in ast.walk(x) if isinstance(z, ast.Attribute) and z.attr == "uuid" and isinstance(z.value, ast.Name)}
+        def from_block(e: ast.AST, depth: int = 0) -> bool:
+            for z in ast.walk(e):
+                if isinstance(z, ast.Name):
+                    if z.id in blockvars:
+                        return True
+                    if depth < 3 and z.id in env and z.id not in blockvars and from_block(env[z.id], depth + 1):
+                        return True
+            return False
+        if not by_name and blockvars and not from_block(k):
+            rep.violation("Acl.group", snippet(x, 60), f"the key the identity of a block is filed under (`{snippet(k, 40)}`) is not computed from that block: every block is filed under the same entry (the first entry of the whole list), so one block receives uuid, note and number of another", where(f, x), inp="grouped ACL with two blocks; acl.resequence(); acl.port_nr = True; acl.sort()")
+            continue
         if by_name:
             rep.violation("Acl.group", snippet(x, 60), "the identity of an existing block is filed under the block's NAME, and unnamed blocks share the name '': the block of the entries in front of the first heading receives uuid, note and number of an `AceGroup(text)` block (and that block gets none)", where(f, x), inp="acl = Acl(two plain entries); acl.append(AceGroup('remark ===== web =====\\npermit tcp any any eq 80')); acl.resequence(); acl.items[-1].note = 'web'; acl.group('===== ')")
         else:
